@@ -88,8 +88,8 @@ pub struct FdeSpec {
     pub len: u64,
     pub rows: Vec<(u64, RowSpec)>,
     pub eval_fails: bool,
-    /// aarch64 only: the CFA program contains DW_CFA_AARCH64_negate_ra_state (no effect on
-    /// the rows framehop looks at).
+    /// aarch64: the CFA program contains DW_CFA_AARCH64_negate_ra_state (twice); x86-64: it
+    /// contains a rule for the stack pointer column (no effect on the rows framehop looks at).
     pub pac: bool,
 }
 
